@@ -2,6 +2,8 @@
 `#print axioms` on every run; and the trusted base recorded in the evidence."""
 
 THEOREMS = {
+    'C09': ['Rrss.C09.execProgram_never_crashes', 'Rrss.C09.execProgram_initial_never_crashes', 'Rrss.C09.execProgram_result',
+            'Rrss.C09.interp_never_crashes', 'Rrss.C09.valOps_never_crash', 'Rrss.C09.poetic_computeValue_ok'],
 }
 
 _BASE = [
